@@ -27,7 +27,15 @@ POOLSETS = [
     [({"CPU": 1}, None), ({"CPU": 1, "GPU": 1}, None)],
     [({"CPU": 2}, {"CPU": 1}), ({"GPU": 1}, None)],
     [({"CPU": 2}, None), ({"CPU": 2, "GPU": 1}, {"CPU": 1, "GPU": 1})],
+    # pools with several workers (a pool entry that is a list = its workers): the
+    # policy names a pool, the pool picks the worker
+    [[({"CPU": 2}, None), ({"GPU": 1}, None)]],
+    [[({"CPU": 1}, None), ({"CPU": 2, "GPU": 1}, {"CPU": 1})]],
 ]
+
+
+def workers_of(pool):
+    return pool if isinstance(pool, list) else [pool]
 POLICIES = ("EDF", "FIFO", "LSF")
 
 
@@ -49,19 +57,21 @@ def build(case):
 
     pools = []
     blockers = []
-    for pi, (cap, blk) in enumerate(POOLSETS[case["poolset"]]):
-        w = Worker(f"W{pi}", Resources({Resource(n): q for n, q in cap.items()}))
-        p = WorkerPool(f"P{pi}", workers=[w])
+    for pi, pool in enumerate(POOLSETS[case["poolset"]]):
+        ws = [Worker(f"W{pi}_{wi}", Resources({Resource(n): q for n, q in cap.items()}))
+              for wi, (cap, _blk) in enumerate(workers_of(pool))]
+        p = WorkerPool(f"P{pi}", workers=ws)
         pools.append(p)
-        if blk:
-            bs = ExecutionStrategy(res(blk), 1, EventTime(50, US))
-            bj = Job(name=f"blk{pi}", profile=WorkProfile(f"pb{pi}",
-                                                        ExecutionStrategies([bs])))
-            bt = Task(name=f"blk{pi}", task_graph="B", job=bj,
-                      deadline=EventTime(100, US), release_time=EventTime(0, US))
-            bt.release(EventTime(0, US))
-            assert p.place_task(bt, execution_strategy=bs)
-            blockers.append(bt)
+        for wi, (_cap, blk) in enumerate(workers_of(pool)):
+            if blk:
+                bs = ExecutionStrategy(res(blk), 1, EventTime(50, US))
+                bj = Job(name=f"blk{pi}_{wi}", profile=WorkProfile(
+                    f"pb{pi}_{wi}", ExecutionStrategies([bs])))
+                bt = Task(name=f"blk{pi}_{wi}", task_graph="B", job=bj,
+                          deadline=EventTime(100, US), release_time=EventTime(0, US))
+                bt.release(EventTime(0, US))
+                assert p.place_task(bt, execution_strategy=bs, worker_id=ws[wi].id)
+                blockers.append(bt)
     wps = WorkerPools(pools)
     tasks = {}
     names = case.get("names") or ["Ta", "Tb", "Tc", "Td"]
@@ -117,12 +127,15 @@ def judge(case, out, stats):
     sched, wl, wps, tasks, pools = build(case)
     names = list(tasks)
     pl = sched.schedule(EventTime(NOW, EventTime.Unit.US), wl, wps)
-    caps = []
-    for cap, blk in POOLSETS[case["poolset"]]:
-        c = dict(cap)
-        for n, q in (blk or {}).items():
-            c[n] -= q
-        caps.append(c)
+    caps = []  # per pool: list of free dicts, one per worker
+    for pool in POOLSETS[case["poolset"]]:
+        fr = []
+        for cap, blk in workers_of(pool):
+            c = dict(cap)
+            for n, q in (blk or {}).items():
+                c[n] -= q
+            fr.append(c)
+        caps.append(fr)
     pool_index = {p.id: i for i, p in enumerate(pools)}
     placed = {}
     for p in pl:
@@ -148,16 +161,12 @@ def judge(case, out, stats):
     for n in names:
         if n not in answered:
             out.append(mk("answer.missing", case, f"{n} got no decision"))
-    # joint feasibility of what was placed (cheap sanity, single-worker pools)
-    used = [dict() for _ in caps]
-    for n, (pi, s) in placed.items():
-        for r, q in S[s][1].items():
-            used[pi][r] = used[pi].get(r, 0) + q
-    for pi, u in enumerate(used):
-        for r, q in u.items():
-            if q > caps[pi].get(r, 0):
-                out.append(mk("placed.exceeds_capacity", case,
-                              f"pool {pi} {r}: placed {q} > free {caps[pi].get(r, 0)}"))
+    # joint feasibility of what was placed: some assignment of the placed tasks to
+    # workers of the pools they were answered with must respect every worker
+    if not list(assignments(caps, placed, list(placed))):
+        out.append(mk("placed.exceeds_capacity", case,
+                      f"no assignment of the placed tasks {placed} to the workers of "
+                      f"their pools (free: {caps}) respects capacity"))
     stats["schedule_calls"] += 1
     if len(placed) < len(names):
         stats["calls_with_unplaced"] += 1
@@ -167,23 +176,55 @@ def judge(case, out, stats):
     for U in names:
         if U in placed:
             continue
-        free = [dict(c) for c in caps]
-        for n, (pi, s) in placed.items():
-            if rank[n] <= rank[U]:
-                for r, q in S[s][1].items():
-                    free[pi][r] = free[pi].get(r, 0) - q
+        # the policy only names pools; whichever workers the higher-or-equal priority
+        # tasks really occupy, U must not fit anywhere: flag only if U fits under
+        # *every* capacity-respecting assignment of those tasks to workers
+        higher = [n for n in placed if rank[n] <= rank[U]]
         sl = STRAT_LISTS[case["tasks"][names.index(U)][1]]
-        for s in sl:
-            for pi, f in enumerate(free):
-                if all(f.get(r, 0) >= q for r, q in S[s][1].items()):
-                    lower = sorted(n for n in placed if rank[n] > rank[U])
-                    out.append(mk(
-                        "priority.inversion", case,
-                        f"{U} (rank {rank[U]}) left unplaced although strategy {s} fits "
-                        f"pool {pi} once only tasks of higher-or-equal priority are "
-                        f"accounted; placed: {placed}; lower-priority placed: {lower}"))
-                    return
+        fits_always, witness = True, None
+        some = False
+        for free in assignments(caps, placed, higher):
+            some = True
+            w = None
+            for s in sl:
+                for pi, fr in enumerate(free):
+                    for wi, f in enumerate(fr):
+                        if w is None and all(f.get(r, 0) >= q
+                                             for r, q in S[s][1].items()):
+                            w = (s, pi, wi)
+            if w is None:
+                fits_always = False
+                break
+            witness = w
+        if some and fits_always:
+            lower = sorted(n for n in placed if rank[n] > rank[U])
+            out.append(mk(
+                "priority.inversion", case,
+                f"{U} (rank {rank[U]}) left unplaced although strategy {witness[0]} fits "
+                f"pool {witness[1]} (worker {witness[2]}) once only tasks of "
+                f"higher-or-equal priority are accounted, whichever workers they are "
+                f"on; placed: {placed}; lower-priority placed: {lower}"))
+            return
     return
+
+
+def assignments(caps, placed, subset):
+    """Every capacity-respecting assignment of the tasks in `subset` to workers of the
+    pools they were placed in; yields the remaining free quantities per pool/worker."""
+    subset = list(subset)
+
+    def rec(k, free):
+        if k == len(subset):
+            yield free
+            return
+        pi, s = placed[subset[k]]
+        for wi, f in enumerate(free[pi]):
+            if all(f.get(r, 0) >= q for r, q in S[s][1].items()):
+                nf = [[dict(x) for x in fr] for fr in free]
+                for r, q in S[s][1].items():
+                    nf[pi][wi][r] = nf[pi][wi].get(r, 0) - q
+                yield from rec(k + 1, nf)
+    yield from rec(0, [[dict(x) for x in fr] for fr in caps])
 
 
 def mk(rule, case, msg):
@@ -255,8 +296,9 @@ def main(tier, seed):
     run_generic(
         "C13", tier, seed, items(tier), job, extra=(tier, seed), engine="e3",
         rule="all task sets of size <=3 (thorough: 4 on a reduced menu) x priority ranks "
-             "{1,2,3} (ties included) x 10 strategy lists x 6 pool sets (single-worker "
-             "pools, with and without occupancy) x EDF/FIFO/LSF; real schedule() vs an "
+             "{1,2,3} (ties included) x 10 strategy lists x 8 pool sets (single- and "
+             "two-worker pools, with and without occupancy) x EDF/FIFO/LSF, first task "
+             "fresh or preempted after 1-2 us; real schedule() vs an "
              "independent residual-fit check in priority order",
         assumptions=["priority key per policy realised through deadline (EDF), release "
                      "time (FIFO), deadline - now - slowest runtime (LSF)",
